@@ -73,8 +73,8 @@ func init() {
 	mutant("goaway-no-closing-state", "goaway-bookkeeping", "serverConn.go", "	atomic.StoreInt32((*int32)(&sc.state), int32(connStateClosed))\n\n	if sc.debug {\n		sc.logger.Printf(\n			\"%s: GoAway", "	if strm != 0 {\n		atomic.StoreInt32((*int32)(&sc.state), int32(connStateClosed))\n	}\n\n	if sc.debug {\n		sc.logger.Printf(\n			\"%s: GoAway")
 	mutant("body-unbounded", "buffer-append-bounded", "serverConn.go", "		if sc.maxRequestBodySize > 0 && strm.recvBody > sc.maxRequestBodySize {\n			return NewResetStreamError(EnhanceYourCalm, \"request body is too large\")\n		}\n\n		strm.ctx.Request.AppendBody(data)", "		strm.ctx.Request.AppendBody(data)")
 	mutant("ring-never-evicts", "closed-ring-bounded", "serverConn.go", "			delete(closedStrms, closedRing[closedOldest])\n", "")
-	mutant("uppercase-check-dropped", "validators-dominate-accept", "serverConn.go", "		if hasUpperCase(k) {\n			return NewResetStreamError(ProtocolError, \"header field name contains uppercase characters\")\n		}\n", "")
-	mutant("te-check-after-accept", "validators-dominate-accept", "serverConn.go", "		if bytes.Equal(k, StringTE) && !bytes.Equal(v, StringTrailers) {\n			return NewResetStreamError(ProtocolError, \"TE header field with a value other than trailers\")\n		}\n", "")
+	mutant("uppercase-check-dropped", "validators-dominate-accept", "serverConn.go", "		if hasUpperCase(k) {\n			return sc.rejectBlock(strm, fr, b, NewResetStreamError(ProtocolError, \"header field name contains uppercase characters\"))\n		}\n", "")
+	mutant("te-check-after-accept", "validators-dominate-accept", "serverConn.go", "		if bytes.Equal(k, StringTE) && !bytes.Equal(v, StringTrailers) {\n			return sc.rejectBlock(strm, fr, b, NewResetStreamError(ProtocolError, \"TE header field with a value other than trailers\"))\n		}\n", "")
 	mutant("client-status-range", "validators-dominate-accept", "conn.go", "if err != nil || n < 100 || n > 999 {", "if err != nil {")
 	mutant("content-length-mismatch-ignored", "validators-dominate-accept", "serverConn.go", "if strm.hasContentLength && strm.recvBody != strm.contentLength {", "if strm.hasContentLength && strm.recvBody > strm.contentLength {")
 	mutant("parse-error-skipped", "parse-error-rejects", "conn.go", "			n, err := parseUint(hf.ValueBytes())\n			if err != nil {\n				return errInvalidContentLength\n			}\n", "			n, err := parseUint(hf.ValueBytes())\n			if err != nil {\n				n = 0\n			}\n")
@@ -94,7 +94,7 @@ func init() {
 	mutant("no-flush-after-conn-credit", "credit-then-flush", "serverConn.go", "						break loop\n					}\n\n					sc.flushStreams(strms, closeStream)\n				}\n\n				continue", "						break loop\n					}\n				}\n\n				continue")
 	mutant("cli-no-signal", "credit-then-flush", "conn.go", "		pb.window += inc\n	}\n\n	c.sendLck.Unlock()\n\n	c.signalWindow()", "		pb.window += inc\n	}\n\n	c.sendLck.Unlock()")
 	mutant("refused-data-ok-but-priority-skip", "hdr-must-decode", "serverConn.go", "					sc.writeGoAway(fr.Stream(), ProtocolError, \"stream ID is lower than the latest\")\n\n					if canCloseAfterGoAway() {\n						break loop\n					}\n", "					sc.writeReset(fr.Stream(), ProtocolError)\n")
-	mutant("data-on-closed-stream-reset-only", "data-must-credit", "serverConn.go", "					default:\n						sc.writeGoAway(fr.Stream(), StreamClosedError, \"frame on closed stream\")\n\n						if canCloseAfterGoAway() {\n							break loop\n						}\n					}", "					default:\n						sc.writeReset(fr.Stream(), StreamClosedError)\n					}")
+	mutant("data-on-closed-stream-reset-only", "data-must-credit", "serverConn.go", "						sc.writeGoAway(fr.Stream(), StreamClosedError, \"frame on closed stream\")\n\n						if canCloseAfterGoAway() {\n							break loop\n						}\n					}", "						sc.writeReset(fr.Stream(), StreamClosedError)\n					}")
 	mutant("refill-wrong-increment", "recv-window-refill", "serverConn.go", "		inc := sc.maxWindow - sc.currentWindow\n		sc.currentWindow = sc.maxWindow", "		inc := sc.maxWindow\n		sc.currentWindow = sc.maxWindow")
 	mutant("cli-debit-data-length", "recv-window-refill", "conn.go", "func (c *Conn) creditData(fr *FrameHeader) {\n	c.consumeConnWindow(fr.Len())", "func (c *Conn) creditData(fr *FrameHeader) {\n	c.consumeConnWindow(fr.Body().(*Data).Len())")
 	mutant("zero-increment-possible", "increment-positive", "serverConn.go", "	if n <= 0 {\n		return\n	}\n\n	// The body has already been copied", "	if n < 0 {\n		return\n	}\n\n	// The body has already been copied")
@@ -145,9 +145,9 @@ func init() {
 }
 
 func init() {
-	mutant("closed-id-not-remembered", "close-stream-bookkeeping", "serverConn.go", "		markClosed(strmID)\n		strms.Del(strmID)", "		if sc.debug {\n			markClosed(strmID)\n		}\n		strms.Del(strmID)")
+	mutant("closed-id-not-remembered", "close-stream-bookkeeping", "serverConn.go", "		markClosed(strmID, strm.resetSent)\n		strms.Del(strmID)", "		if sc.debug {\n			markClosed(strmID, strm.resetSent)\n		}\n		strms.Del(strmID)")
 	mutant("closed-state-not-swept", "close-stream-bookkeeping", "serverConn.go", "			if strm.State() == StreamStateClosed {\n				closeStream(strm)\n			}\n\n			if wasClosing", "			if wasClosing")
-	mutant("stream-error-as-goaway", "error-routing", "serverConn.go", "		sc.writeReset(strm.ID(), streamErr.Code())\n	}", "		sc.writeGoAway(strm.ID(), streamErr.Code(), streamErr.Error())\n	}")
+	mutant("stream-error-as-goaway", "error-routing", "serverConn.go", "		sc.resetStream(strm, streamErr.Code())\n	}", "		sc.writeGoAway(strm.ID(), streamErr.Code(), streamErr.Error())\n	}")
 	mutant("loop-continues-after-conn-error", "error-routing", "serverConn.go", "					connErr.frameType == FrameGoAway && connErr.Code() != NoError {\n					break loop\n				}", "					connErr.frameType == FrameGoAway && connErr.Code() != NoError {\n					continue\n				}")
 	mutant("continuation-other-stream-ok", "continuation-sequencing", "serverConn.go", "if fr.Type() != FrameContinuation || fr.Stream() != expectContinuation {", "if fr.Type() != FrameContinuation {")
 	mutant("stray-continuation-forwarded", "continuation-sequencing", "serverConn.go", "		} else if fr.Type() == FrameContinuation {\n			sc.writeGoAway(0, ProtocolError, \"unexpected CONTINUATION frame\")\n			ReleaseFrameHeader(fr)\n			return errConnClosed\n		} else if", "		} else if")
@@ -207,7 +207,7 @@ func init() {
 	mutant("stream-window-limit-constant", "credit-overflow-check", "serverConn.go", "							if s.window > 1<<31-1 {", "							if s.window > 1<<32-1 {")
 	mutant("conn-window-limit-loose", "credit-overflow-check", "serverConn.go", "					if sc.clientWindow > 1<<31-1 {", "					if sc.clientWindow > 1<<31+1 {")
 	mutant("stream-wu-limit-nonstrict", "credit-overflow-check", "serverConn.go", "		if atomic.AddInt64(&strm.window, win) > 1<<31-1 {", "		if atomic.AddInt64(&strm.window, win) >= 1<<31-1 {")
-	mutant("rst-on-latest-is-idle", "unknown-stream-classification", "serverConn.go", "					if fr.Stream() > sc.lastID {", "					if fr.Stream() >= sc.lastID {")
+	mutant("rst-on-latest-is-idle", "unknown-stream-classification", "serverConn.go", "!closed && fr.Stream() > sc.lastID {", "!closed && fr.Stream() >= sc.lastID {")
 	mutant("lower-than-latest-nonstrict", "unknown-stream-classification", "serverConn.go", "				if fr.Stream() < sc.lastID {\n					if fr.Type() == FrameWindowUpdate {", "				if fr.Stream() <= sc.lastID {\n					if fr.Type() == FrameWindowUpdate {")
 	mutant("resume-not-closed", "completion-closes-stream", "serverConn.go", "				if sc.sendData(strm) {\n					strm.SetState(StreamStateClosed)\n				}", "				if sc.sendData(strm) {\n					strm.responded = true\n				}")
 	mutant("flush-done-not-closed", "completion-closes-stream", "serverConn.go", "	for _, s := range done {\n		s.SetState(StreamStateClosed)\n		closeStream(s)\n	}", "	for _, s := range done {\n		s.SetState(StreamStateClosed)\n	}")
@@ -241,7 +241,7 @@ func init() {
 }
 
 func init() {
-	mutant("length-mismatch-reset-not-closed", "completion-closes-stream", "serverConn.go", "					sc.writeReset(strm.ID(), ProtocolError)\n					strm.SetState(StreamStateClosed)\n				} else {", "					sc.writeReset(strm.ID(), ProtocolError)\n				} else {")
+	mutant("length-mismatch-reset-not-closed", "completion-closes-stream", "serverConn.go", "					sc.resetStream(strm, ProtocolError)\n					strm.SetState(StreamStateClosed)\n				} else {", "					sc.resetStream(strm, ProtocolError)\n				} else {")
 	mutant("header-limit-zero-is-a-limit", "request-mapping", "serverConn.go", "if sc.maxHeaderList > 0 && strm.headerListSize > sc.maxHeaderList {", "if sc.maxHeaderList >= 0 && strm.headerListSize > sc.maxHeaderList {")
 }
 
@@ -531,7 +531,7 @@ func init() {
 	mutant("closing-test-disjunction", "server-loop-shape", "serverConn.go", "			if wasClosing && canCloseAfterGoAway() {", "			if wasClosing || canCloseAfterGoAway() {")
 	mutant("length-mismatch-needs-no-declaration", "server-loop-shape", "serverConn.go", "				if strm.hasContentLength && strm.recvBody != strm.contentLength {", "				if strm.hasContentLength || strm.recvBody != strm.contentLength {")
 	mutant("goaway-reference-not-recorded", "server-loop-shape", "serverConn.go", "		atomic.StoreUint32(&sc.closeRef, sc.lastID)\n", "")
-	mutant("stream-error-not-answered", "server-loop-shape", "serverConn.go", "		sc.writeReset(strm.ID(), streamErr.Code())\n", "")
+	mutant("stream-error-not-answered", "server-loop-shape", "serverConn.go", "		sc.resetStream(strm, streamErr.Code())\n", "")
 	mutant("incomplete-block-counts-as-finished", "server-loop-shape", "serverConn.go", "			strm.headersFinished = len(strm.previousHeaderBytes) == 0", "			strm.headersFinished = len(strm.previousHeaderBytes) >= 0")
 	mutant("pseudo-header-presence-conjunction", "server-loop-shape", "serverConn.go", "	if !strm.pseudoMethod || !strm.pseudoScheme || !strm.pseudoPath {", "	if !strm.pseudoMethod && !strm.pseudoScheme || !strm.pseudoPath {")
 	mutant("zero-window-increment-accepted", "server-loop-shape", "serverConn.go", "		if win == 0 {\n			return NewGoAwayError(ProtocolError, \"window increment of 0\")\n		}\n", "")
@@ -590,4 +590,40 @@ func init() {
 	mutant("abandoned-stream-body-left-open", "client-request-shape", "conn.go", "	defer pb.ctx.release()\n\n	c.closeBodyStream(pb)\n\n	return true", "	defer pb.ctx.release()\n\n	return true")
 	mutant("unsent-debit-not-refunded", "window-writers", "conn.go", "			c.connWindow += int32(n)\n", "			_ = n\n")
 	mutant("unsent-debit-refunded-twice", "window-writers", "conn.go", "			c.connWindow += int32(n)\n", "			c.connWindow += 2 * int32(n)\n")
+}
+
+func init() {
+	mutant("one-rejection-leaves-the-block-undecoded", "no-stream-error-inside-decode-loop", "serverConn.go", "			return sc.rejectBlock(strm, fr, b, NewResetStreamError(ProtocolError, \"connection-specific header field\"))", "			return NewResetStreamError(ProtocolError, \"connection-specific header field\")")
+	mutant("rejection-drains-the-whole-fragment-again", "no-stream-error-inside-decode-loop", "serverConn.go", "			return sc.rejectBlock(strm, fr, b, NewResetStreamError(ProtocolError, \"connection-specific header field\"))", "			return sc.rejectBlock(strm, fr, pb, NewResetStreamError(ProtocolError, \"connection-specific header field\"))")
+	mutant("drain-loop-forgets-to-count", "block-remainder-decoded", "serverConn.go", "			break\n		}\n\n		fields++\n	}\n\n	return nil, fields, nil", "			break\n		}\n	}\n\n	return nil, fields, nil")
+	mutant("drain-loop-carries-on-the-last-fragment", "block-remainder-decoded", "serverConn.go", "			if errors.Is(err, ErrUnexpectedSize) && !last {\n				return pb, fields, nil", "			if errors.Is(err, ErrUnexpectedSize) {\n				return pb, fields, nil")
+	mutant("drain-loop-decode-error-is-a-stream-error", "block-remainder-decoded", "serverConn.go", "			return nil, fields, NewGoAwayError(CompressionError, err.Error())", "			return nil, fields, NewResetStreamError(CompressionError, err.Error())")
+	mutant("drain-loop-stops-at-any-empty-field", "block-remainder-decoded", "serverConn.go", "		if len(b) == 0 && hf.Empty() {\n			// Ended in a dynamic table size update: no field.", "		if hf.Empty() {\n			// Ended in a dynamic table size update: no field.")
+	mutant("drain-loop-always-at-block-start", "block-remainder-decoded", "serverConn.go", "		b, err = sc.dec.nextField(hf, fields == 0, fields, b)", "		b, err = sc.dec.nextField(hf, true, fields, b)")
+	mutant("rejected-field-not-counted", "block-remainder-decoded", "serverConn.go", "sc.skipFields(b, strm.blockFields+1, fr.Flags().Has(FlagEndHeaders))", "sc.skipFields(b, strm.blockFields, fr.Flags().Has(FlagEndHeaders))")
+	mutant("rejection-drops-the-cut-field", "block-remainder-decoded", "serverConn.go", "	strm.previousHeaderBytes = append(strm.previousHeaderBytes[:0], carry...)\n	strm.blockFields = fields\n\n	return reason", "	_ = carry\n	strm.blockFields = fields\n\n	return reason")
+	mutant("rejection-swallowed", "block-remainder-decoded", "serverConn.go", "	strm.blockFields = fields\n\n	return reason", "	strm.blockFields = fields\n\n	return err")
+	mutant("open-block-read-from-end-stream", "block-remainder-decoded", "serverConn.go", "	strm.blockOpen = !fr.Flags().Has(FlagEndHeaders)", "	strm.blockOpen = !fr.Flags().Has(FlagEndStream)")
+	mutant("open-block-only-recorded-on-headers", "block-remainder-decoded", "serverConn.go", "	if fr.Type() != FrameContinuation {\n		strm.blockFields = 0\n	}\n\n	strm.blockOpen = !fr.Flags().Has(FlagEndHeaders)", "	if fr.Type() != FrameContinuation {\n		strm.blockFields = 0\n		strm.blockOpen = !fr.Flags().Has(FlagEndHeaders)\n	}")
+	mutant("closed-stream-takes-its-block-with-it", "block-remainder-decoded", "serverConn.go", "		if strm.blockOpen {\n			sc.discard.open = true", "		if strm.blockOpen && sc.debug {\n			sc.discard.open = true")
+	mutant("handed-over-bytes-alias-the-pooled-stream", "block-remainder-decoded", "serverConn.go", "			sc.discard.carry = append(sc.discard.carry[:0], strm.previousHeaderBytes...)", "			sc.discard.carry = strm.previousHeaderBytes")
+	mutant("handed-over-position-lost", "block-remainder-decoded", "serverConn.go", "			sc.discard.fields = strm.blockFields\n", "")
+	mutant("discard-keeps-a-stale-cut-field", "block-remainder-decoded", "serverConn.go", "		if fr.Type() == FrameHeaders || !d.open || d.id != fr.Stream() {", "		if fr.Type() == FrameHeaders && (!d.open || d.id != fr.Stream()) {")
+	mutant("discard-ignores-the-carried-bytes", "block-remainder-decoded", "serverConn.go", "		b := append(d.carry, fr.Body().(FrameWithHeaders).Headers()...)", "		b := fr.Body().(FrameWithHeaders).Headers()")
+	mutant("discard-open-flag-inverted", "block-remainder-decoded", "serverConn.go", "		d.open = !last", "		d.open = last")
+	mutant("discard-credits-data-without-padding", "block-remainder-decoded", "serverConn.go", "	case FrameData:\n		sc.consumeConnRecvWindow(fr.Len())\n	case FrameHeaders, FrameContinuation:", "	case FrameData:\n		sc.consumeConnRecvWindow(fr.Body().(*Data).Len())\n	case FrameHeaders, FrameContinuation:")
+	mutant("discard-skips-continuations", "hdr-must-decode", "serverConn.go", "	case FrameHeaders, FrameContinuation:\n		d := &sc.discard", "	case FrameHeaders:\n		d := &sc.discard")
+	mutant("recycled-stream-keeps-the-reset-mark", "block-remainder-decoded", "stream.go", "	strm.resetSent = false\n", "")
+	mutant("late-frames-after-our-reset-kill-the-connection", "late-frames-on-reset-streams", "serverConn.go", "						if resetSent {\n							if err := sc.discardFrame(fr); err != nil {", "						if resetSent && sc.debug {\n							if err := sc.discardFrame(fr); err != nil {")
+	mutant("late-frames-after-our-reset-dropped-unseen", "late-frames-on-reset-streams", "serverConn.go", "						if resetSent {\n							if err := sc.discardFrame(fr); err != nil {\n								sc.writeError(nil, err)\n								break loop\n							}\n\n							continue\n						}", "						if resetSent {\n							continue\n						}")
+	mutant("frames-on-a-stream-the-peer-closed-accepted", "late-frames-on-reset-streams", "serverConn.go", "						sc.writeGoAway(fr.Stream(), StreamClosedError, \"frame on closed stream\")\n\n						if canCloseAfterGoAway() {\n							break loop\n						}\n", "")
+	mutant("refused-stream-forgotten", "late-frames-on-reset-streams", "serverConn.go", "					if fr.Type() == FrameHeaders {\n						markClosed(fr.Stream(), true)\n					}\n", "")
+	mutant("refused-stream-remembered-as-closed-by-the-peer", "late-frames-on-reset-streams", "serverConn.go", "						markClosed(fr.Stream(), true)", "						markClosed(fr.Stream(), false)")
+	mutant("refused-header-block-not-decoded", "late-frames-on-reset-streams", "serverConn.go", "					if err := sc.discardFrame(fr); err != nil {\n						sc.writeError(nil, err)\n						break loop\n					}\n\n					continue\n				}\n\n				if fr.Stream() < sc.lastID {", "					if fr.Type() == FrameData {\n						sc.consumeConnRecvWindow(fr.Len())\n					}\n\n					continue\n				}\n\n				if fr.Stream() < sc.lastID {")
+	mutant("reset-not-recorded", "late-frames-on-reset-streams", "serverConn.go", "	strm.resetSent = true\n\n	sc.writeReset(strm.ID(), code)", "	sc.writeReset(strm.ID(), code)")
+	mutant("timeout-reset-bypasses-the-record", "late-frames-on-reset-streams", "serverConn.go", "				sc.resetStream(strm, StreamCanceled)\n\n				// set the state to closed", "				sc.writeReset(strm.ID(), StreamCanceled)\n\n				// set the state to closed")
+	mutant("memory-forgets-who-reset", "late-frames-on-reset-streams", "serverConn.go", "		closedStrms[id] = resetSent\n	}", "		closedStrms[id] = false\n	}")
+	mutant("second-close-clears-the-reset-mark", "late-frames-on-reset-streams", "serverConn.go", "			closedStrms[id] = closedStrms[id] || resetSent", "			closedStrms[id] = resetSent")
+	mutant("close-stream-drops-the-reset-mark", "late-frames-on-reset-streams", "serverConn.go", "		markClosed(strmID, strm.resetSent)", "		markClosed(strmID, false)")
+	mutant("cancel-of-a-refused-stream-is-an-idle-reset", "late-frames-on-reset-streams", "serverConn.go", "					if _, closed := closedStrms[fr.Stream()]; !closed && fr.Stream() > sc.lastID {", "					if fr.Stream() > sc.lastID {")
 }
